@@ -80,6 +80,10 @@ public:
                 p.add("gst", {(s64)r.below(5), data_addr() & 0xFFFF, v});
             else if (x < 78)
                 p.add("gld", {(s64)r.below(5), data_addr() & 0xFFFF});
+            else if (x < 81)
+                // 32-bit moves (mova through the reset ar0/ar1 configuration: high half at [r0], low half at [r0+1]); arg0 aims
+                // the pair across the lower / upper edge of the MMIO window, where the two halves take different routes
+                p.add(r.chance(1, 2) ? "gst2" : "gld2", {(s64)r.below(4), data_addr() & 0xFFFF, v, (s64)(r.next() & 0xFFFF)});
             else if (x < 84)
                 p.add("fetch", {(s64)(r.chance(1, 2) ? 0x20000 + (data_addr() & 0x1FFF0) : 0x2000 + r.below(0x1D000)), (s64)r.below(3), v});
             else if (x < 88)
@@ -277,6 +281,60 @@ public:
                     } else {
                         u16 got = (form == 1 || form == 3) ? (u16)(b.regs().a[0] & 0xFFFF) : b.regs().r[0];
                         check_read(si, "guest load", data_flat(a), got, Guest);
+                    }
+                } else if (s.op == "gst2" || s.op == "gld2") {
+                    int sel = (int)(s.arg(0) & 3);
+                    u16 a = sel == 1 ? (u16)(base - 1) : sel == 2 ? (u16)(base + 0x7FF) : (u16)s.arg(1);
+                    u16 a2 = (u16)(a + 1);
+                    bool ma = in_mmio(a), ma2 = in_mmio(a2);
+                    if (ma && ma2)
+                        continue; // entirely inside the window: registers with side effects, judged by mmiow
+                    if ((ma || ma2) && z != 0)
+                        continue; // the DSP-side window is only defined for page 0
+                    bool store = s.op == "gst2";
+                    u16 vh = (u16)s.arg(2), vl = (u16)s.arg(3);
+                    // the register behind a window half is 0x7FF (upper edge) or 0x000 (lower edge): plain storage cells
+                    u16 off = ma ? (u16)((a - base) & 0x7FF) : (u16)((a2 - base) & 0x7FF);
+                    u16 cell_before = (ma || ma2) ? t.MMIORead(off) : 0;
+                    Asm g;
+                    g.org(0x1F00);
+                    g.w(store ? 0x4DE1 : 0x4BF1); // mova a0 -> [r0],[r0+1]   /   mova [r0],[r0+1] -> a1
+                    g.idle();
+                    b.regs().r[0] = a;
+                    b.regs().a[0] = (u64)(s64)(s32)(((u32)vh << 16) | vl);
+                    b.regs().a[1] = 0;
+                    // reset ar configuration: arrn0 = r0, step "+2", offset "+1"; no modulo
+                    run_stub(g, 1);
+                    if (!dead.empty())
+                        break;
+                    out.probes[store ? "guest_store_dword" : "guest_load_dword"]++;
+                    if (ma || ma2)
+                        out.probes["dword_straddles_window_edge"]++;
+                    if (store) {
+                        if (!ma)
+                            mset(data_flat(a), vh, Guest);
+                        if (!ma2)
+                            mset(data_flat(a2), vl, Guest);
+                        if (ma || ma2) {
+                            u16 cell = t.MMIORead(off), want = ma ? vh : vl;
+                            log.add(cell);
+                            if (cell != want)
+                                out.violate("C11.read-mismatch",
+                                            fmt("step %zu: 32-bit guest store at 0x%04x/0x%04x straddling the MMIO window (base 0x%04x): the half "
+                                                "inside the window did not reach register 0x%03x (reads 0x%04x, stored 0x%04x)",
+                                                si, a, a2, base, off, cell, want));
+                        }
+                    } else {
+                        u32 got = (u32)(b.regs().a[1] & 0xFFFFFFFF);
+                        u16 wh = ma ? cell_before : mword(data_flat(a)), wl = ma2 ? cell_before : mword(data_flat(a2));
+                        if (!ma)
+                            check_read(si, "guest 32-bit load (high half)", data_flat(a), (u16)(got >> 16), Guest);
+                        if (!ma2 && out.ok())
+                            check_read(si, "guest 32-bit load (low half)", data_flat(a2), (u16)got, Guest);
+                        if (out.ok() && got != (((u32)wh << 16) | wl))
+                            out.violate("C11.read-mismatch",
+                                        fmt("step %zu: 32-bit guest load at 0x%04x/0x%04x straddling the MMIO window (base 0x%04x) returned "
+                                            "0x%08x, memory/register 0x%03x hold 0x%04x:0x%04x", si, a, a2, base, got, off, wh, wl));
                     }
                 } else if (s.op == "fetch") {
                     u32 at = (u32)(s.arg(0) & 0x3FFF0);
